@@ -32,12 +32,13 @@ BASE = dict(N=2, PR=2, MinStake=2, MaxVals=1, UnstakeTime=1, Window=2, MinSigned
             JailDur=1, MaxEvAge=1, FracDen=4, FracDS=2, FracDT=1, Fee=1, GenBal=(9, 9), GenVals=set(),
             DaoTokens=3, Dev=set(), Amts={2, 4}, Dts={1}, BurnNums={2}, MaxHeight=3, MaxTx=2, MaxExt=0,
             EvOn=False, MissOn=False, BadTxOn=False, Kinds={"stake", "unstake"}, SendTos={1}, Props={1},
-            AwardTos={1}, EvPowers={1}, EvUnknown=False, MaxRO=0, ParamOwner=1, ParamVals={1, 2}, GenExported=False, GenPrev=(-1, -1), MaxExports=0)
+            AwardTos={1}, EvPowers={1}, EvUnknown=False, MaxRO=0, ParamOwner=1, ParamVals={1, 2}, GenExported=False, GenPrev=(-1, -1), MaxExports=0, MaxCrashes=0, SecpUsers=set())
 
 
 def cfg(**over):
     c = dict(BASE)
     c.update(over)
+    assert c["SecpUsers"] <= {c["N"]}, "only the last user can hold the secp256k1 key"
     if len(c["GenPrev"]) != c["N"]:
         c["GenPrev"] = tuple([-1] * c["N"])
     return c
@@ -82,14 +83,22 @@ ALLK = {"stake", "unstake", "unjail", "send"}
 PROFILES = {
     "C02": {
         "mc": [cfg(Kinds=ALLK, SendTos={2, 4}, Amts={2, 9}, MaxExt=1, AwardTos={1, 4}, BurnNums={1}, Props={0, 1}, MaxHeight=2, BadTxOn=False)],
-        "sim": [cfg(N=3, GenBal=(9, 9, 5), GenVals=gv((1, 4)), MaxVals=2, Kinds=ALLK, SendTos={1, 2, 5, 7}, Amts={0, 1, 2, 4, 9}, MaxExt=2,
-                    AwardTos={1, 2, 4, 5}, BurnNums={1, 2, 4}, Props={0, 1, 2}, MaxHeight=6, MaxTx=3, EvOn=True, MissOn=True, BadTxOn=True, EvPowers={1, 2, 9})],
+        # the same with one crash-and-reopen anywhere, and transfers to the fee collector, the (not yet created) pos module
+        # account and an outside address
+        "mcT": [cfg(Kinds=ALLK, SendTos={2, 4}, Amts={2, 9}, MaxExt=1, AwardTos={1, 4}, BurnNums={1}, Props={0, 1}, MaxHeight=2, BadTxOn=False, MaxCrashes=1),
+                cfg(Kinds={"send", "stake"}, SendTos={3, 5, 7, 8}, Amts={2}, MaxExt=1, AwardTos={1, 8}, BurnNums={1}, Props={0, 1}, MaxHeight=3, BadTxOn=False)],
+        # (ids with N=3: 4 fee collector, 5 staked pool, 6 pos module account, 7 DAO, 8 any outside address, 9 any address of unusual length)
+        "sim": [cfg(N=3, GenBal=(9, 9, 5), GenVals=gv((1, 4)), MaxVals=2, Kinds=ALLK, SendTos={1, 2, 4, 5, 6, 7, 8, 9}, Amts={0, 1, 2, 4, 9}, MaxExt=2,
+                    AwardTos={1, 2, 4, 5, 8, 9}, BurnNums={1, 2, 4}, Props={0, 1, 2}, MaxHeight=6, MaxTx=3, EvOn=True, MissOn=True, BadTxOn=True, EvPowers={1, 2, 9}),
+                # a node that crashes (losing everything since the last Commit) and is reopened, up to twice
+                cfg(N=3, GenBal=(9, 9, 5), GenVals=gv((1, 4)), MaxVals=2, Kinds=ALLK, SendTos={1, 2, 5, 8}, Amts={1, 2, 4}, MaxExt=2,
+                    AwardTos={1, 2, 5, 8}, BurnNums={1, 2}, Props={0, 1, 2}, MaxHeight=6, MaxTx=3, EvOn=True, MissOn=True, EvPowers={1, 2}, MaxCrashes=2)],
     },
     "C04": {
         "mc": [cfg(N=2, Kinds={"stake", "unstake", "send"}, SendTos={4}, Amts={2}, MaxExt=1, AwardTos={1}, BurnNums={4}, MaxHeight=3, MaxTx=2, EvOn=True, EvPowers={1})],
         "mcT": [cfg(N=2, Kinds=ALLK, SendTos={4}, Amts={2, 4}, MaxExt=1, AwardTos={1}, BurnNums={1, 4}, MaxHeight=3, MaxTx=2, EvOn=True, EvPowers={1})],
         "sim": [cfg(N=3, GenBal=(9, 9, 9), GenVals=gv((1, 4), (2, 2)), MaxVals=2, UnstakeTime=2, Kinds=ALLK, SendTos={1, 5}, Amts={1, 2, 3, 4}, MaxExt=2,
-                    AwardTos={1, 2, 5}, BurnNums={1, 2, 4}, Props={0, 1, 2}, MaxHeight=7, MaxTx=3, EvOn=True, MissOn=True, EvPowers={1, 2, 9}),
+                    AwardTos={1, 2, 5}, BurnNums={1, 2, 4}, Props={0, 1, 2}, MaxHeight=7, MaxTx=3, EvOn=True, MissOn=True, EvPowers={1, 2, 9}, MaxCrashes=1),
                 # export / import restart (the pool is re-funded by InitGenesis from the exported validators)
                 cfg(N=3, GenBal=(9, 9, 9), GenVals=gv((1, 4), (2, 4)), MaxVals=3, UnstakeTime=2, Kinds={"stake", "unstake"}, Amts={2}, MaxHeight=5, MaxTx=2, Dts={1}, MaxExports=1,
                     EvOn=True, EvPowers={1}),
@@ -106,7 +115,7 @@ PROFILES = {
         "sim": [cfg(N=4, GenBal=(9, 9, 9, 9), GenVals=gv((1, 4), (2, 4), (3, 2)), MaxVals=2, Amts={2, 3, 4, 6}, Kinds={"stake", "unstake", "unjail"}, MaxHeight=8, MaxTx=3,
                     MissOn=True, EvOn=True, EvPowers={1, 2}, MaxExt=1, BurnNums={1, 2}, Props={0, 1, 2}, Dts={0, 1, 2}),
                 cfg(N=3, GenBal=(9, 9, 9), GenVals=gv((1, 2), (2, 2), (3, 2)), MaxVals=1, Amts={2, 4}, Kinds={"stake", "unstake", "unjail"}, MaxHeight=8, MaxTx=3,
-                    MissOn=True, EvOn=True, EvPowers={1}, UnstakeTime=0),
+                    MissOn=True, EvOn=True, EvPowers={1}, UnstakeTime=0, MaxCrashes=1),
                 # an exported genesis (consistent: the previous-state powers are the top-2 powers of the exported state;
                 # validator 3 is staked but below the cut-off and therefore absent from them)
                 cfg(N=3, GenBal=(9, 9, 9), GenVals=gv((1, 6), (2, 4), (3, 2)), GenExported=True, GenPrev=(3, 2, -1), MaxVals=2, Amts={2, 4}, Kinds={"stake", "unstake"},
@@ -124,7 +133,7 @@ PROFILES = {
         "mcT": [cfg(N=3, GenBal=(9, 9, 9), MaxVals=3, UnstakeTime=2, Amts={2}, Kinds={"stake", "unstake"}, MaxHeight=4, MaxTx=3, Dts={1, 2})],
         "sim": [cfg(N=3, GenBal=(9, 9, 3), GenVals=gv((1, 2)), MaxVals=2, UnstakeTime=2, Amts={1, 2, 3, 9}, Kinds={"stake", "unstake", "unjail"}, MaxHeight=9, MaxTx=3, Dts={0, 1, 2},
                     EvOn=True, MissOn=True, EvPowers={1, 2}, MaxExt=1, BurnNums={1, 2, 4}),
-                cfg(N=4, GenBal=(9, 9, 9, 9), MaxVals=4, UnstakeTime=1, Amts={2, 4}, Kinds={"stake", "unstake"}, MaxHeight=7, MaxTx=4, Dts={0, 1, 3}),
+                cfg(N=4, GenBal=(9, 9, 9, 9), MaxVals=4, UnstakeTime=1, Amts={2, 4}, Kinds={"stake", "unstake"}, MaxHeight=7, MaxTx=4, Dts={0, 1, 3}, MaxCrashes=1, SecpUsers={4}),
                 # the minimum stake itself is changed by governance (MinStakeHeld is then suspended; everything else still conforms)
                 cfg(N=3, GenBal=(9, 9, 9), GenVals=gv((1, 4), (2, 2)), MaxVals=3, UnstakeTime=1, Amts={2, 3}, Kinds={"setparam", "stake", "unstake", "unjail"}, ParamVals={2},
                     MaxHeight=6, MaxTx=3, Dts={1}, MissOn=True, Window=1, MinSignedNum=1, MinSignedDen=1, FracDT=2),
@@ -141,7 +150,7 @@ PROFILES = {
         "mc": [cfg(N=2, MaxVals=2, GenVals=gv((1, 4), (2, 2)), Kinds={"unstake"}, MaxHeight=2, MaxTx=1, EvOn=True, MissOn=True, EvPowers={0, 1, 2, 9}, MaxExt=1, BurnNums={0, 1, 2, 4},
                    Window=1, MinSignedNum=1, MinSignedDen=1, FracDS=2, FracDT=1)],
         "sim": [cfg(N=3, GenBal=(9, 9, 9), GenVals=gv((1, 7), (2, 4), (3, 2)), MaxVals=3, Kinds={"stake", "unstake", "unjail"}, Amts={2, 5}, MaxHeight=6, MaxTx=2, EvOn=True, MissOn=True,
-                    EvPowers={0, 1, 2, 3, 9}, MaxExt=2, BurnNums={0, 1, 2, 3, 4}, Window=2, FracDen=8, FracDS=3, FracDT=1, Dts={0, 1, 2}, MaxEvAge=1),
+                    EvPowers={0, 1, 2, 3, 9}, MaxExt=2, BurnNums={0, 1, 2, 3, 4}, Window=2, FracDen=8, FracDS=3, FracDT=1, Dts={0, 1, 2}, MaxEvAge=1, MaxCrashes=1),
                 cfg(N=3, GenBal=(9, 9, 9), GenVals=gv((1, 7), (2, 4), (3, 2)), MaxVals=3, Kinds={"unstake"}, MaxHeight=6, MaxTx=1, EvOn=True, MissOn=True,
                     EvPowers={1, 3}, MaxExt=1, BurnNums={1, 8}, Window=1, MinSignedNum=1, MinSignedDen=1, FracDen=8, FracDS=8, FracDT=8),
                 # a downtime slash computed from a vote power that is older (larger) than the stake a burn left
@@ -152,7 +161,7 @@ PROFILES = {
         "mc": [cfg(N=1, GenBal=(9,), GenVals=gv((1, 4)), MaxVals=1, Kinds={"unjail"}, MaxTx=1, MissOn=True, Window=3, MinSignedNum=1, MinSignedDen=2, MaxHeight=9, JailDur=1, FracDT=0),
                cfg(N=2, GenBal=(9, 9), GenVals=gv((1, 4), (2, 4)), MaxVals=2, Kinds={"unjail"}, MaxTx=1, MissOn=True, Window=2, MinSignedNum=1, MinSignedDen=2, MaxHeight=6, JailDur=0, FracDT=1)],
         "sim": [cfg(N=2, GenBal=(9, 9), GenVals=gv((1, 8), (2, 4)), MaxVals=2, Kinds={"unjail", "stake", "unstake"}, Amts={2}, MaxTx=2, MissOn=True, Window=5, MinSignedNum=1, MinSignedDen=2,
-                    MaxHeight=16, JailDur=1, FracDT=1, Dts={1}),
+                    MaxHeight=16, JailDur=1, FracDT=1, Dts={1}, MaxCrashes=1),
                 cfg(N=2, GenBal=(9, 9), GenVals=gv((1, 8), (2, 8)), MaxVals=2, Kinds={"unjail"}, MaxTx=1, MissOn=True, Window=4, MinSignedNum=3, MinSignedDen=4,
                     MaxHeight=14, JailDur=0, FracDT=1, FracDen=8),
                 # the chain is stopped, exported and restarted from the export in the middle of the vote history
@@ -168,7 +177,7 @@ PROFILES = {
         "mc": [cfg(N=2, GenBal=(9, 9), GenVals=gv((1, 4), (2, 2)), MaxVals=2, Kinds={"unjail", "unstake", "stake"}, Amts={2}, MaxTx=2, MissOn=True, EvOn=True, EvPowers={1}, Window=1,
                    MinSignedNum=1, MinSignedDen=1, MaxHeight=4, JailDur=2, Dts={1})],
         "sim": [cfg(N=3, GenBal=(9, 9, 9), GenVals=gv((1, 6), (2, 4), (3, 2)), MaxVals=2, Kinds={"unjail", "unstake", "stake"}, Amts={2, 3}, MaxTx=3, MissOn=True, EvOn=True, EvPowers={1, 2},
-                    Window=2, MinSignedNum=1, MinSignedDen=2, MaxHeight=10, JailDur=2, Dts={0, 1, 2, 3}, FracDen=8, FracDT=1, FracDS=2),
+                    Window=2, MinSignedNum=1, MinSignedDen=2, MaxHeight=10, JailDur=2, Dts={0, 1, 2, 3}, FracDen=8, FracDT=1, FracDS=2, MaxCrashes=1),
                 # export / import restart with jailed and tombstoned validators
                 cfg(N=3, GenBal=(9, 9, 9), GenVals=gv((1, 6), (2, 4), (3, 4)), MaxVals=3, Kinds={"unjail", "unstake", "stake"}, Amts={2, 4}, MaxTx=2, MissOn=True, EvOn=True, EvPowers={1},
                     Window=2, MaxHeight=7, JailDur=2, UnstakeTime=2, Dts={1, 2}, MaxExports=1),
@@ -179,14 +188,14 @@ PROFILES = {
     "C10": {
         "mc": [cfg(N=2, Kinds={"stake", "send", "unstake"}, SendTos={2}, Amts={2}, MaxExt=2, AwardTos={1, 5}, Props={0, 1}, MaxHeight=3, MaxTx=2, UnstakeTime=0, BurnNums=set())],
         "mcT": [cfg(N=2, Kinds={"stake", "send", "unstake"}, SendTos={2}, Amts={2}, MaxExt=2, AwardTos={1, 2, 5}, Props={0, 1, 2}, MaxHeight=3, MaxTx=2, UnstakeTime=0, BurnNums=set())],
-        "sim": [cfg(N=3, GenBal=(9, 9, 9), GenVals=gv((1, 4)), MaxVals=2, Kinds=ALLK, SendTos={1, 2}, Amts={1, 2, 3}, MaxExt=3, AwardTos={1, 2, 3, 4, 5, 6, 7}, Props={0, 1, 2, 3}, MaxHeight=7, MaxTx=3,
-                    UnstakeTime=0, BurnNums={1}, Fee=2)],
+        "sim": [cfg(N=3, GenBal=(9, 9, 9), GenVals=gv((1, 4)), MaxVals=2, Kinds=ALLK, SendTos={1, 2, 4, 6}, Amts={1, 2, 3}, MaxExt=3, AwardTos={1, 2, 3, 4, 5, 6, 7, 8}, Props={0, 1, 2, 3}, MaxHeight=7, MaxTx=3,
+                    UnstakeTime=0, BurnNums={1}, Fee=2, MaxCrashes=1)],
     },
     "C11": {
         "mc": [cfg(N=2, Kinds=ALLK, SendTos={2}, Amts={2, 9}, MaxHeight=2, MaxTx=2, BadTxOn=True, GenVals=gv((1, 4)), MaxRO=1)],
         "sim": [cfg(N=3, GenBal=(9, 2, 0), GenVals=gv((1, 4)), MaxVals=2, Kinds=ALLK, SendTos={1, 2, 3}, Amts={0, 1, 2, 9}, MaxHeight=5, MaxTx=5, BadTxOn=True, MissOn=True, Window=1, MinSignedNum=1, MinSignedDen=1,
                     Fee=2, MaxRO=3),
-                cfg(N=2, GenBal=(9, 9), GenVals=gv((1, 4)), MaxVals=2, Kinds=ALLK, SendTos={1, 2, 4}, Amts={2, 4}, MaxHeight=5, MaxTx=3, BadTxOn=True, Fee=1, MaxRO=2, UnstakeTime=0),
+                cfg(N=2, GenBal=(9, 9), GenVals=gv((1, 4)), MaxVals=2, Kinds=ALLK, SendTos={1, 2, 4, 7}, Amts={2, 4}, MaxHeight=5, MaxTx=3, BadTxOn=True, Fee=1, MaxRO=2, UnstakeTime=0, MaxCrashes=1, SecpUsers={2}),
                 # governance raises the minimum stake above existing stakes mid-history, then those validators transact
                 cfg(N=3, GenBal=(9, 9, 9), GenVals=gv((1, 4), (2, 2)), MaxVals=3, Kinds={"setparam", "stake", "unstake", "unjail"}, ParamVals={2}, Amts={2, 3}, MaxHeight=4, MaxTx=4, Fee=1,
                     UnstakeTime=1, MaxRO=1),
@@ -212,7 +221,7 @@ def app_cfg(c, seed):
                     "MaxEvAge": c["MaxEvAge"], "FracDS": dec(c["FracDS"], c["FracDen"]), "FracDT": dec(c["FracDT"], c["FracDen"]),
                     "FracDen": c["FracDen"], "Fee": c["Fee"], "GovFee": max(c["Fee"], 0) or -1, "FeeMult": 1, "Bal": list(c["GenBal"]), "GVals": gvals,
                     "DaoTokens": c["DaoTokens"], "DaoOwner": 1, "AclOwner": [c["ParamOwner"]], "KeySeed": seed,
-                    "Exported": c["GenExported"], "PrevPowers": list(c["GenPrev"])},
+                    "Exported": c["GenExported"], "PrevPowers": list(c["GenPrev"]), "SecpLast": bool(c.get("SecpUsers"))},
             "fracDen": c["FracDen"]}
 
 
@@ -240,17 +249,62 @@ def simulate(c, d, seed, size, label):
     return parse_beh(res.out)
 
 
-def run_real(c, behs, d, seed, label):
+class ProcessExit(Exception):
+    """The real application ended the PROCESS inside a call (os.Exit / log.Fatal - not a panic, which the
+    harness recovers and reports as a halt).  Reproduced twice at the same call before it is raised."""
+    def __init__(self, info):
+        Exception.__init__(self, "process exited with status %s inside %s" % (info["rc"], json.dumps(info["act"])))
+        self.info = info
+
+
+def locate_exit(cp, behs, d, label):
+    """posdrv died: find the call inside which the process ended (flushed trace), twice."""
+    found = None
+    for b in behs:
+        one = os.path.join(d, "one_%s.ndjson" % label)
+        with open(one, "w") as fh:
+            fh.write(json.dumps(b) + "\n")
+        hits = []
+        for attempt in range(2):
+            tr = os.path.join(d, "one_%s_%d.trace" % (label, attempt))
+            p = common.run_driver("posdrv", ["run", cp, one, tr], timeout=600, env_extra={"VERIF_SYNC": "1"})
+            if p.returncode == 0:
+                break
+            err = p.stderr or ""
+            if p.returncode < 0 or any(x in err for x in ("panic:", "goroutine ", "fatal error", "signal:")):
+                return None   # a crash of the Go runtime / the harness itself: never a verdict
+            done = 0
+            try:
+                for x in open(tr):
+                    json.loads(x)
+                    done += 1
+            except ValueError:
+                pass
+            if done >= len(b):
+                return None
+            hits.append((done, p.returncode, err[-500:]))
+        if len(hits) == 2 and hits[0][0] == hits[1][0]:
+            done, rcode, err = hits[0]
+            found = {"behaviour": b[:done + 1], "step": done + 1, "act": b[done], "rc": rcode, "stderr": err}
+            break
+    return found
+
+
+def run_real(c, behs, d, seed, label, rc=None):
     acts = os.path.join(d, "acts_%s.ndjson" % label)
     with open(acts, "w") as fh:
         for b in behs:
             fh.write(json.dumps(b) + "\n")
     cp = os.path.join(d, "cfg_%s.json" % label)
     with open(cp, "w") as fh:
-        json.dump(app_cfg(c, seed), fh)
+        json.dump(rc or app_cfg(c, seed), fh)
     tr = os.path.join(d, "trace_%s.ndjson" % label)
     p = common.run_driver("posdrv", ["run", cp, acts, tr], timeout=1800)
     if p.returncode != 0:
+        info = locate_exit(cp, behs, d, label) if p.returncode > 0 else None
+        if info:
+            info["cfg"] = rc or app_cfg(c, seed)
+            raise ProcessExit(info)
         raise common.ToolError("posdrv died (rc=%s): %s" % (p.returncode, (p.stderr or p.stdout)[-2000:]))
     return tr
 
@@ -271,15 +325,15 @@ def validate(c, tr, d, label, dev=None):
 # validators, longer histories; validated by the same monitor with these constants.
 RICH = cfg(N=5, PR=1000000, MinStake=1000000, MaxVals=3, UnstakeTime=2, Window=4, MinSignedNum=1, MinSignedDen=2, JailDur=1, MaxEvAge=2,
            FracDen=100, FracDS=5, FracDT=1, Fee=100, GenBal=(50000000, 40000000, 30000000, 3000000, 999999),
-           GenVals=gv((1, 3000000), (2, 1000001)), DaoTokens=7000000, Amts={1}, BurnNums={0, 50, 100, 150}, MaxHeight=14, MaxTx=5, MaxExports=1)
+           GenVals=gv((1, 3000000), (2, 1000001)), DaoTokens=7000000, Amts={1}, BurnNums={0, 50, 100, 150}, MaxHeight=14, MaxTx=5, MaxExports=1, MaxCrashes=1)
 RICH2 = cfg(N=4, PR=1000000, MinStake=2500000, MaxVals=2, UnstakeTime=0, Window=3, MinSignedNum=7, MinSignedDen=10, JailDur=0, MaxEvAge=1,
             FracDen=1000, FracDS=1000, FracDT=333, Fee=0, GenBal=(90000000, 9000000, 5000000, 2500000),
-            GenVals=gv((1, 7500000), (2, 2500000), (3, 2500000)), DaoTokens=0, Amts={1}, BurnNums={1, 999, 1000}, MaxHeight=12, MaxTx=4)
+            GenVals=gv((1, 7500000), (2, 2500000), (3, 2500000)), DaoTokens=0, Amts={1}, BurnNums={1, 999, 1000}, MaxHeight=12, MaxTx=4, MaxCrashes=2)
 
 
 def run_random(c, d, seed, nbeh, label):
     rc = app_cfg(c, seed)
-    rc.update(maxHeight=c["MaxHeight"], maxTx=c["MaxTx"], burnNums=sorted(c["BurnNums"]), exports=c.get("MaxExports", 0))
+    rc.update(maxHeight=c["MaxHeight"], maxTx=c["MaxTx"], burnNums=sorted(c["BurnNums"]), exports=c.get("MaxExports", 0), crashes=c.get("MaxCrashes", 0))
     cp = os.path.join(d, "rcfg_%s.json" % label)
     with open(cp, "w") as fh:
         json.dump(rc, fh)
@@ -288,6 +342,86 @@ def run_random(c, d, seed, nbeh, label):
     if p.returncode != 0:
         raise common.ToolError("posdrv random died (rc=%s): %s" % (p.returncode, (p.stderr or p.stdout)[-2000:]))
     return tr
+
+
+# C12 at the level of the application: a node that dies anywhere (between blocks, inside a block,
+# after EndBlock) and is reopened has byte for byte the stores it had at its last Commit, under
+# every pruning option, and the history goes on from there conforming to the specification.
+CRASH_CFGS = [
+    cfg(N=3, GenBal=(9, 9, 5), GenVals=gv((1, 4), (2, 2)), MaxVals=2, UnstakeTime=1, Kinds=ALLK, SendTos={1, 2, 5, 8}, Amts={1, 2, 4}, MaxExt=2,
+        AwardTos={1, 2, 8}, BurnNums={1, 2}, Props={0, 1, 2}, MaxHeight=7, MaxTx=3, EvOn=True, MissOn=True, EvPowers={1, 2}, MaxCrashes=3, MaxRO=1),
+    cfg(N=2, GenBal=(9, 9), GenVals=gv((1, 4)), MaxVals=2, Kinds={"stake", "unstake", "send", "setparam"}, ParamVals={1, 2}, SendTos={1, 2}, Amts={2, 4},
+        MaxHeight=6, MaxTx=3, MaxCrashes=2, MaxExports=1, UnstakeTime=2),
+]
+PRUNINGS = ["nothing", "everything", "syncable", "1,2", "2,3", "3,1"]
+
+
+def stage_crash(out, prop, tier, seed, d):
+    """Posmint.tla's Crash action against the real application, reported under `prop` (C12)."""
+    common.build_harness(["posdrv"])
+    size = dict(SIZES[tier])
+    size.update(num=max(4, size["num"] // 6), maxbeh=max(150, size["maxbeh"] // 6))
+    seen = set()
+    crashes = 0
+    for i, c in enumerate(CRASH_CFGS):
+        label = "%s_crash%d" % (prop, i)
+        behs = [b for b in simulate(c, d, seed * 6151 + i, size, label) if any(a["a"] == "Crash" for a in b)]
+        if len(behs) < size["maxbeh"] // 3:
+            more = simulate(c, d, seed * 6151 + i + 1, dict(size, onein=1), label + "b")
+            have = {json.dumps(b) for b in behs}
+            behs += [b for b in more if json.dumps(b) not in have and any(a["a"] == "Crash" for a in b)]
+        behs = behs[:size["maxbeh"]]
+        if not behs:
+            raise common.ToolError("simulation %s produced no behaviour with a crash" % label)
+        acts = os.path.join(d, "acts_%s.ndjson" % label)
+        with open(acts, "w") as fh:
+            for b in behs:
+                fh.write(json.dumps(b) + "\n")
+        rc = app_cfg(c, seed)
+        rc["app"]["Pruning"] = PRUNINGS[(seed + i) % len(PRUNINGS)] if tier == "quick" else None
+        trs = []
+        for pr in ([rc["app"]["Pruning"]] if tier == "quick" else PRUNINGS):
+            rc["app"]["Pruning"] = pr
+            cp = os.path.join(d, "cfg_%s_%s.json" % (label, pr.replace(",", "_")))
+            with open(cp, "w") as fh:
+                json.dump(rc, fh)
+            tr = os.path.join(d, "trace_%s_%s.ndjson" % (label, pr.replace(",", "_")))
+            p = common.run_driver("posdrv", ["run", cp, acts, tr], timeout=1800)
+            if p.returncode != 0:
+                raise common.ToolError("posdrv died (rc=%s): %s" % (p.returncode, (p.stderr or p.stdout)[-2000:]))
+            trs.append((pr, tr, json.loads(json.dumps(rc))))
+        for pr, tr, rcfg in trs:
+            res, divs = validate(c, tr, d, label + "_" + pr.replace(",", "_"))
+            lines = [json.loads(x) for x in open(tr)]
+            n = sum(1 for ln in lines if ln["act"]["a"] == "Crash")
+            crashes += n
+            out.cov["traces_validated_against_impl"] += len(behs)
+            where = out.notes.setdefault("app_level_crash_points_by_preceding_call", {})
+            for k, ln in enumerate(lines):
+                if ln["act"]["a"] == "Crash" and k > 0:
+                    a = lines[k - 1]["act"]["a"]
+                    where[a] = where.get(a, 0) + 1
+            for dv in divs:
+                ln = lines[dv["line"] - 1]
+                if ln["act"]["a"] != "Crash":
+                    continue
+                sigs = []
+                if "C12.CrashRecoversCommitted" in dv["bad"]:
+                    sigs.append(("C12.CrashRecoversCommitted", "the node reopened after a crash does not have, byte for byte, the stores it had at its last Commit"))
+                for f in sorted(dv["div"]):
+                    sigs.append(("crash-lost-or-kept:%s" % f, "after crash and reopen `%s` is not what was committed" % f))
+                for sig, what in sigs:
+                    if sig in seen:
+                        continue
+                    seen.add(sig)
+                    beh = [x["act"] for x in lines if x["b"] == ln["b"] and x["i"] <= ln["i"]]
+                    out.violation(sig=sig, what="%s (pruning %s, behaviour %d, step %d, after %s)" % (what, pr, ln["b"], ln["i"], json.dumps(beh[-2])[:160] if len(beh) > 1 else ""),
+                                  action="Crash", pruning=pr, diverged=sorted(dv["div"]), predicates=sorted(dv["bad"]),
+                                  replay={"driver": "posdrv", "cfg": rcfg, "consts": {k: (sorted(v, key=str) if isinstance(v, (set, frozenset)) else v) for k, v in c.items()},
+                                          "actions": beh, "observed": ln["post"], "result": ln["res"]})
+    out.notes["app_level_crashes_validated"] = crashes
+    if crashes == 0:
+        raise common.ToolError("no crash was executed on the real application")
 
 
 def attribute(prop, dv, line):
@@ -301,6 +435,10 @@ def attribute(prop, dv, line):
             out.append((b, "predicate %s is false on the real %s" % (b, "transition" if a else "state")))
     norm = set(NORMATIVE.get(prop, set()))
     fields = set(dv["div"])
+    if a == "Crash":
+        # whether a reopened node has exactly what it committed is C12's subject (predicate
+        # C12.CrashRecoversCommitted); here only the property's own predicates on the state it came back with
+        norm = set()
     if prop == "C11":
         # everything is normative, but only for calls the application rejected
         if not (a == "Tx" and line["res"]["class"] in ("rej_pre", "rej_post")):
@@ -382,7 +520,22 @@ def run(prop, tier, seed):
             if not behs:
                 raise common.ToolError("simulation produced no behaviours")
             lap("simulate")
-            tr = run_real(c, behs, d, seed, label)
+            try:
+                tr = run_real(c, behs, d, seed, label)
+            except ProcessExit as e:
+                # C11 states that the process keeps running whatever is submitted; for the other properties a
+                # process that ends is a check that cannot go on (undecided), never a verdict
+                inf = e.info
+                if prop == "C11" and inf["act"]["a"] in ("Tx", "CheckTx", "Simulate", "Query"):
+                    a = inf["act"]
+                    out.violation(sig="process-exit@%s/%s" % (a["a"], a.get("kind", "")),
+                                  what="the process ended (exit status %s) inside %s of behaviour step %d (config %s): %s" % (inf["rc"], a["a"], inf["step"], label, json.dumps(a)),
+                                  action=a["a"], kind=a.get("kind", ""), result="process-exit",
+                                  replay={"driver": "posdrv", "cfg": inf["cfg"], "consts": {k: (sorted(v, key=str) if isinstance(v, (set, frozenset)) else v) for k, v in c.items()},
+                                          "actions": inf["behaviour"], "exit_status": inf["rc"]})
+                    lap("real_run")
+                    continue
+                raise common.ToolError(str(e))
             lap("real_run")
             lines = [json.loads(x) for x in open(tr)]
             res, divs = validate(c, tr, d, label)
@@ -434,16 +587,25 @@ def replay(prop, path):
     c = {}
     for k, val in rp["consts"].items():
         c[k] = val
-    for k in ("Dev", "Amts", "Dts", "BurnNums", "Kinds", "SendTos", "Props", "AwardTos", "EvPowers"):
-        c[k] = set(c[k])
+    for k in ("Dev", "Amts", "Dts", "BurnNums", "Kinds", "SendTos", "Props", "AwardTos", "EvPowers", "SecpUsers", "ParamVals"):
+        c[k] = set(c.get(k, ()))
+    for k, dflt in BASE.items():   # replay files written before a constant existed
+        c.setdefault(k, dflt)
     c["GenVals"] = {tlagen.rec(**g) for g in c["GenVals"]}
     c["GenBal"] = tuple(c["GenBal"])
     with common.Scratch() as d:
-        tr = run_real(c, [rp["actions"]], d, rp["cfg"]["app"]["KeySeed"], "replay")
+        try:
+            tr = run_real(c, [rp["actions"]], d, rp["cfg"]["app"]["KeySeed"], "replay", rc=rp["cfg"])
+        except ProcessExit as e:
+            print("replayed on the real code: %s" % e)
+            return 1
         res, divs = validate(c, tr, d, "replay")
         lines = [json.loads(x) for x in open(tr)]
         bad = False
         for dv in divs:
+            if prop == "C12" and lines[dv["line"] - 1]["act"]["a"] == "Crash" and (dv["div"] or "C12.CrashRecoversCommitted" in dv["bad"]):
+                print("step %d: crash and reopen: differs from what was committed in %s %s" % (dv["line"], sorted(dv["div"]), sorted(dv["bad"])))
+                bad = True
             for sig, what in attribute(prop, dv, lines[dv["line"] - 1]):
                 print("step %d: %s: %s" % (dv["line"], sig, what))
                 bad = True
